@@ -1,7 +1,9 @@
 //! Verification harness for scylla-rust-driver: runs the REAL implementation on line-protocol cases.
 //! One module per property; `hx` (src/bin/hx.rs) dispatches.
 
+pub mod e2e;
 pub mod mocknode;
+pub mod mockcluster;
 pub mod rng;
 pub mod util;
 
@@ -19,11 +21,13 @@ pub mod c08gen;
 pub mod c09;
 pub mod c10;
 pub mod c11;
+pub mod c12;
 pub mod c13;
 pub mod c14;
 pub mod c15;
 pub mod c18;
 pub mod c19;
+pub mod c19_race;
 pub mod c20;
 pub mod c16;
 pub mod c16_structs;
@@ -65,6 +69,7 @@ pub fn property(id: &str) -> Option<(GenFn, RunFn)> {
         "C09" => Some((c09::generate, c09::run)),
         "C10" => Some((c10::generate, c10::run)),
         "C11" => Some((c11::generate, c11::run)),
+        "C12" => Some((c12::generate, c12::run)),
         "C13" => Some((c13::generate, c13::run)),
         "C14" => Some((c14::generate, c14::run)),
         "C15" => Some((c15::generate, c15::run)),
